@@ -24,7 +24,7 @@ func c20Tokens() (toks [][]byte) {
 	for _, m := range c20Markers {
 		toks = append(toks, []byte(m), []byte(strings.ToUpper(m)), []byte(mixCase(m)))
 	}
-	for _, s := range []string{"<", "</hea", "<lin", "<scrip", "abc", "er>", "s", ">", "\x1f\x8b", "\x1f\x8b\x08\x00", "\r\n", "<html>", "\x00", "\x80", "\xc3\xa9", "\xff"} {
+	for _, s := range []string{"<", "</hea", "<lin", "<scrip", "abc", "er>", "s", ">", "\x1f\x8b", "\x1f\x8b\x08\x00", "\xff\xfe", "\xfe\xff", "\xef\xbb\xbf", "\r\n", "<html>", "\x00", "\x80", "\xc3\xa9", "\xff"} {
 		toks = append(toks, []byte(s))
 	}
 	return toks
